@@ -66,6 +66,10 @@ type Canonicalizer struct {
 
 	loopInfo *loop.LoopInfo
 
+	// currentFn is the function being analysed; references to it and to its own closures are
+	// rendered relative to it so that renaming the function does not change its canonical IR.
+	currentFn *ssa.Function
+
 	registerMap          map[ssa.Value]string
 	blockMap             map[*ssa.BasicBlock]string
 	regCounter           int
@@ -166,6 +170,7 @@ func (c *Canonicalizer) AnalyzeLoops(fn *ssa.Function) {
 	if len(fn.Blocks) == 0 {
 		return
 	}
+	c.currentFn = fn
 	c.loopInfo = loop.DetectLoops(fn)
 	loop.AnalyzeSCEV(c.loopInfo)
 }
@@ -550,6 +555,7 @@ func (c *Canonicalizer) resetScratch() {
 	c.regCounter = 0
 	c.output.Reset()
 	c.loopInfo = nil
+	c.currentFn = nil
 
 	if c.virtualInstrs != nil {
 		for k := range c.virtualInstrs {
@@ -1224,7 +1230,7 @@ func (c *Canonicalizer) NormalizeOperand(v ssa.Value, context ssa.Instruction) s
 		if name, exists := c.registerMap[v]; exists {
 			return name
 		}
-		return fmt.Sprintf("<func_ref:%s:%s>", funcRefName(operand), sanitizeType(operand.Signature))
+		return fmt.Sprintf("<func_ref:%s:%s>", c.funcRefName(operand), sanitizeType(operand.Signature))
 	default:
 		return c.normalizeValue(v)
 	}
@@ -1233,8 +1239,29 @@ func (c *Canonicalizer) NormalizeOperand(v ssa.Value, context ssa.Instruction) s
 // funcRefName identifies a referenced function unambiguously. The bare name is not enough:
 // a.Get and b.Get, or (*T).Close and (*U).Close, have equal names and signatures but are
 // different callees, so package path and receiver are part of the reference.
-func funcRefName(fn *ssa.Function) string {
+//
+// The function being analysed and the closures nested in it are the exception: go/ssa names
+// closures after the outermost enclosing function (Outer$1, Outer$1$2), so a qualified name would
+// make the canonical IR of Outer, and of its closures, depend on what Outer is called. They are
+// referred to relative to the outermost enclosing function instead.
+func (c *Canonicalizer) funcRefName(fn *ssa.Function) string {
+	if c.currentFn != nil {
+		if fn == c.currentFn {
+			return "<self>"
+		}
+		root := outermostFunction(fn)
+		if root == outermostFunction(c.currentFn) {
+			return "<local" + strings.TrimPrefix(fn.Name(), root.Name()) + ">"
+		}
+	}
 	return fn.RelString(nil)
+}
+
+func outermostFunction(fn *ssa.Function) *ssa.Function {
+	for fn.Parent() != nil {
+		fn = fn.Parent()
+	}
+	return fn
 }
 
 func packageQualifier(p *types.Package) string {
